@@ -33,6 +33,9 @@ pub struct GroupByObserver<O, Discr, Key, Subject> {
   observer: O,
   discr: Discr,
   subjects: HashMap<Key, Subject>,
+  /// the keys in order of first appearance: the source's terminal reaches the
+  /// groups in that order, not in the hash map's (randomised) iteration order
+  order: Vec<Key>,
 }
 
 ///////////////////////////////////////////////////////////////////////////////
@@ -78,6 +81,7 @@ macro_rules! impl_observable_for_group_by {
           observer,
           discr: self.discr,
           subjects: <_>::default(),
+          order: Vec::new(),
         })
       }
     }
@@ -108,6 +112,7 @@ where
     let key = (self.discr)(&value);
     let subject = self.subjects.entry(key.clone()).or_insert_with(|| {
       let subject = Subject::default();
+      self.order.push(key.clone());
       let wrapper = KeyObservable { key, subject: subject.clone() };
       self.observer.next(wrapper);
       subject
@@ -117,16 +122,20 @@ where
 
   #[inline]
   fn error(mut self, err: Err) {
-    for (_, subject) in self.subjects.drain() {
-      subject.error(err.clone());
+    for key in self.order.drain(..) {
+      if let Some(subject) = self.subjects.remove(&key) {
+        subject.error(err.clone());
+      }
     }
     self.observer.error(err)
   }
 
   #[inline]
   fn complete(mut self) {
-    for (_, subject) in self.subjects.drain() {
-      subject.complete();
+    for key in self.order.drain(..) {
+      if let Some(subject) = self.subjects.remove(&key) {
+        subject.complete();
+      }
     }
     self.observer.complete()
   }
